@@ -16,7 +16,7 @@ from typing import Union
 from liquid import CachingDictLoader, Environment, Mode
 from liquid.exceptions import LiquidError
 
-from vf.hx import excluded, finish
+from vf.hx import cint, excluded, finish, untraced
 
 PROPERTY = "C02"
 V = Union[None, bool, int, float, str]
@@ -274,6 +274,11 @@ def c02_parse(i: int, mode: int) -> bool:
     """
     if excluded("c02_parse", locals()):
         return True
+    i, mode = cint(i, 0, 72), cint(mode, 0, 2)
+    return finish(untraced(lambda: _parse_case(i, mode)))
+
+
+def _parse_case(i, mode):
     import warnings
     env = ENVS[_mode(mode)]
     try:
@@ -286,10 +291,10 @@ def c02_parse(i: int, mode: int) -> bool:
             except LiquidError:
                 pass
     except LiquidError:
-        return finish(True)
+        return True
     except Exception:
-        return finish(False)
-    return finish(True)
+        return False
+    return True
 
 
 CONDITIONS.append({"fn": "c02_parse", "quick": 90, "thorough": 240, "sel_only": True})
